@@ -31,11 +31,7 @@ func (k Keeper) GetAllTokenPairs(ctx sdk.Context) []types.TokenPair {
 func (k Keeper) GetTokenPairID(ctx sdk.Context, token string) []byte {
 	if common.IsHexAddress(token) {
 		addr := common.HexToAddress(token)
-		if id := k.GetERC20Map(ctx, addr); len(id) != 0 {
-			return id
-		}
-		// 40 hex digits without a 0x prefix are also a valid coin denomination: a token string that is
-		// not a registered contract is still looked up as a denomination
+		return k.GetERC20Map(ctx, addr)
 	}
 	return k.GetDenomMap(ctx, token)
 }
